@@ -623,7 +623,7 @@ namespace
                 r.why      = "unknown thread " + std::to_string(st.th);
                 break;
             }
-            const bool there = r.rcv.wait_for(lk, 2000ms, [&] { return t->at_gate != 0 || t->finished || r.free_run; });
+            const bool there = r.rcv.wait_for(lk, 5000ms, [&] { return t->at_gate != 0 || t->finished || r.free_run; });
             if (r.free_run) { break; }
             if (!there || t->finished || t->at_gate != st.pt)
             {
